@@ -4,6 +4,7 @@ import (
 	"encoding/json"
 	"fmt"
 	"os"
+	"strings"
 	"testing"
 
 	"verif/hist"
@@ -56,6 +57,16 @@ func TestDebugReplay(t *testing.T) {
 		r.Drain(80)
 		for i := n; i < len(r.Ops); i++ {
 			fmt.Printf("drain %d %s\n", i, r.Ops[i])
+		}
+		for _, te := range r.Trace {
+			if te.Op >= n {
+				fmt.Printf("drain-trace %+v\n", te)
+			}
+		}
+		for k, v := range r.M.C {
+			if strings.Contains(k, "learned") || strings.Contains(k, "not-judged") {
+				fmt.Printf("counter %s=%d\n", k, v)
+			}
 		}
 		dump()
 	}
